@@ -299,6 +299,30 @@ func (t *Transport) DialAddressTimeout(a memberlist.Address, timeout time.Durati
 
 func (t *Transport) StreamCh() <-chan net.Conn { return t.streamCh }
 
+// InjectStream hands the transport's owner a new inbound stream connection
+// that claims to come from the address from, whatever the network's delivery
+// and partition settings say (the stream counterpart of Inject), and returns
+// the harness' end of it.
+func (t *Transport) InjectStream(from string, timeout time.Duration) (net.Conn, error) {
+	if t.isDown() {
+		return nil, errors.New("simnet: transport is down")
+	}
+	p1, p2 := net.Pipe()
+	c1 := &conn{Conn: p1, n: t.net, a: t, b: t, local: simAddr(t.addr), remote: simAddr(from)}
+	select {
+	case t.streamCh <- c1:
+	case <-t.downCh:
+		p1.Close()
+		p2.Close()
+		return nil, fmt.Errorf("simnet: %s went down", t.addr)
+	case <-time.After(timeout):
+		p1.Close()
+		p2.Close()
+		return nil, fmt.Errorf("simnet: nobody accepts streams at %s", t.addr)
+	}
+	return p2, nil
+}
+
 func (t *Transport) Shutdown() error {
 	t.Kill()
 	return nil
